@@ -460,6 +460,9 @@ class Model:
                 return None
         return None
 
+    def is_enum_class(self, c):
+        return any(isinstance(k, External) and k.name.split('.')[-1] in ('Enum', 'IntEnum', 'StrEnum', 'Flag', 'IntFlag') for k in self.mro(c))
+
     def find_attr_class(self, c, name):
         """The class in c's MRO that defines attribute `name` (assign, method,
         property, nested class), or None."""
@@ -642,6 +645,8 @@ class Model:
                 return 2 ** 63 - 1
             r = self.resolve_expr(scope, expr)
             if isinstance(r, tuple) and r[0] == 'assign':
+                if isinstance(r[1], ClassInfo) and isinstance(expr, ast.Attribute) and not expr.attr.startswith('_') and self.is_enum_class(r[1]):
+                    return Unknown('a member of the enum class %s (an object, not the value written in the class body)' % r[1].name)
                 return self.eval_const(r[1], r[2][-1], _depth + 1)
             if isinstance(expr, ast.Name) and expr.id in ('True', 'False', 'None'):
                 return {'True': True, 'False': False, 'None': None}[expr.id]
